@@ -404,6 +404,27 @@ func c06EnumInliningNotOnTargets(p *Prog) *RuleResult {
 // each of them has to look for the property escape before skipping the escaped character. Rule:
 // from every `c == '\\'` test of the function a HasPrefix(…, "p{") test is reached before the scan
 // moves on.
+// looksForPropertyEscape: the call is strings.HasPrefix(…, "p{" / "P{"), or a call of a predicate of
+// the module that makes that test (the condition hoisted into a named function).
+func looksForPropertyEscape(c *ssa.Call, depth int) bool {
+	if calleeFullName(c) == "strings.HasPrefix" && len(c.Call.Args) == 2 {
+		if s, ok := constString(c.Call.Args[1]); ok && (s == "p{" || s == "P{") {
+			return true
+		}
+	}
+	callee := c.Call.StaticCallee()
+	if callee == nil || depth >= 2 || !strings.HasPrefix(pkgPathOf(callee), modPath) {
+		return false
+	}
+	found := false
+	eachInstr(callee, func(_ *ssa.BasicBlock, in ssa.Instruction) {
+		if c2, ok := in.(*ssa.Call); ok && looksForPropertyEscape(c2, depth+1) {
+			found = true
+		}
+	})
+	return found
+}
+
 func c14RegexpEscapeScan(p *Prog) *RuleResult {
 	r := NewRule("C14/R12 regexp-escape-scan-covers-classes", "every place where the regular-expression feature scan consumes a backslash escape first looks for a Unicode property escape (inside character classes too)")
 	fn := p.FindFunc("js_parser.(*parser).isUnsupportedRegularExpression")
@@ -444,10 +465,8 @@ func c14RegexpEscapeScan(p *Prog) *RuleResult {
 				continue
 			}
 			for _, in := range x.Instrs {
-				if c, ok := in.(*ssa.Call); ok && calleeFullName(c) == "strings.HasPrefix" && len(c.Call.Args) == 2 {
-					if s, ok := constString(c.Call.Args[1]); ok && (s == "p{" || s == "P{") {
-						found = true
-					}
+				if c, ok := in.(*ssa.Call); ok && looksForPropertyEscape(c, 0) {
+					found = true
 				}
 			}
 			work = append(work, x.Succs...)
